@@ -162,8 +162,11 @@ CONFIGS = {'plain': [], 'disable-headers': ['--disable-headers', 'x-blocked,cook
            'web-too': ['--enable-web-server']}
 
 
-def flags_for(cred: str, nplug: int, cfg: str = 'plain') -> Any:
+def flags_for(cred: str, nplug: int, cfg: str = 'plain', via: str = 'flag') -> Any:
     plugins = [RecA, RecB][:nplug]
+    if via == 'kw':
+        # the embedding API: proxy.Proxy([...], basic_auth='user:pass') / FlagParser.initialize(basic_auth=...)
+        return make_flags(list(CONFIGS[cfg]), plugins=plugins, cache_key='c08:%s:%d:%s:kw' % (cred, nplug, cfg), basic_auth=cred)
     return make_flags(['--basic-auth', cred] + CONFIGS[cfg], plugins=plugins, cache_key='c08:%s:%d:%s' % (cred, nplug, cfg))
 
 
@@ -173,7 +176,7 @@ def run_case(case: Dict[str, Any]) -> Dict[str, Any]:
     sits = situations(random.Random('c08sit:%s:%s' % (case['seed'], case['i'])), cred)
     sit = case['situation'] if case['situation'] in sits else 'exact'
     values, expected = sits[sit]
-    flags = flags_for(cred, case['plugins'], case.get('cfg', 'plain'))
+    flags = flags_for(cred, case['plugins'], case.get('cfg', 'plain'), case.get('cred_via', 'flag'))
     shim.S.reset()
     del CALLS[:]
     rig = StepRig(flags, case.get('mode', 'local'))
@@ -202,7 +205,16 @@ def run_case(case: Dict[str, Any]) -> Dict[str, Any]:
         if method == 'CONNECT':
             head = b'CONNECT %s HTTP/1.1\r\n' % hp
         else:
-            head = b'%s http://%s/res?x=1 HTTP/1.1\r\n' % (method.encode(), hp)
+            shape = case.get('first_shape', 'plain')
+            head = b'%s http://%s/res?x=1 HTTP/%s\r\n' % (method.encode(), hp, b'1.0' if shape == 'http10-keepalive' else b'1.1')
+            conn = {'http10-keepalive': b'Connection: keep-alive', 'conn-te': b'Connection: keep-alive, TE', 'conn-upgrade': b'Connection: Upgrade',
+                    'conn-keepalive': b'Connection: Keep-Alive'}.get(shape)
+            if conn:
+                hdrs.insert(rng.randint(1, len(hdrs)), conn)
+                if shape == 'conn-te':
+                    hdrs.append(b'TE: trailers')
+                if shape == 'conn-upgrade':
+                    hdrs.append(b'Upgrade: h2c')
             if method in ('POST', 'PUT'):
                 body = b'payload-%d' % case['i']
                 hdrs.append(b'Content-Length: %d' % len(body))
@@ -313,7 +325,7 @@ def run_case(case: Dict[str, Any]) -> Dict[str, Any]:
         audit.stop()
         rig.close()
     obs.update({'situation:' + sit: 1, 'method:' + method: 1, 'plugins:%d' % case['plugins']: 1, 'seg:' + case['seg']: 1,
-                'cfg:' + case.get('cfg', 'plain'): 1})
+                'cfg:' + case.get('cfg', 'plain'): 1, 'cred_via:' + case.get('cred_via', 'flag'): 1, 'first_shape:' + case.get('first_shape', 'plain'): 1})
     nontrivial = bool(values) and values != [b'Basic ' + tok]
     return {'viol': viol, 'nontrivial': nontrivial,
             'sig': '%s/%s/%s/%d/%d/%s' % (sit, method, case['seg'], case['plugins'], case['cred'], case.get('by_name')),
@@ -336,12 +348,14 @@ def cases(tier: str, seed: int):
                        'method': METHODS[(i + k) % len(METHODS)], 'seg': ['whole', 'two', 'bytes'][k],
                        'plugins': rng.choice([0, 1, 2]), 'name_casing': rng.randrange(5), 'by_name': rng.random() < 0.4,
                        'followups': rng.choice([0, 1, 3]), 'transport': rng.choice(['unix', 'tcp']),
-                       'mode': rng.choice(['local', 'local', 'remote']), 'cfg': rng.choice(['plain', 'plain'] + sorted(CONFIGS))}
+                       'mode': rng.choice(['local', 'local', 'remote']), 'cfg': rng.choice(['plain', 'plain'] + sorted(CONFIGS)),
+                       'first_shape': rng.choice(['plain', 'plain', 'http10-keepalive', 'conn-te', 'conn-upgrade', 'conn-keepalive']),
+                       'cred_via': 'kw' if i % 4 == 0 else 'flag'}
 
 
 def floors(tier: str) -> Dict[str, int]:
     return {'near_miss_tokens': 200, 'outcome:served': 150, 'outcome:407': 500, 'followups': 100, 'method:CONNECT': 100,
-            'plugins:2': 30, 'distinct:situations': 35, 'origin_requests_checked': 40, 'cfg:disable-headers': 40, 'cfg:small-buffers': 40}
+            'plugins:2': 30, 'distinct:situations': 35, 'origin_requests_checked': 40, 'cfg:disable-headers': 40, 'cfg:small-buffers': 40, 'cred_via:kw': 100, 'first_shape:http10-keepalive': 40}
 
 
 if __name__ == '__main__':
